@@ -11,7 +11,7 @@ S(s) == Lit(StrV(s))
 \* ---- the full leaf pool of the "types" scope: every literal kind and spelling
 LeavesPlain == { I(0), I(1), I(2), I(7),
                  F(0, 1), F(1, 2), F(2, 1), F(5, 2), F(1000000, 1), F(1, 16384),
-                 S(<<>>), S(<<97>>), S(<<98>>), S(<<97, 98>>),
+                 S(<<>>), S(<<97>>), S(<<98>>), S(<<97, 98>>), S(<<97, 92>>),           \* "a\\": a literal that ends in an escaped backslash
                  Lit(BoolV(TRUE)), Lit(BoolV(FALSE)), Lit(NilV), Id("x") }
 LeavesAlt == { LitS(IntV(7), "hex"), LitS(IntV(7), "oct"), LitS(IntV(0), "HEX"), LitS(IntV(1), "oct"),
                LitS(IntV(8), "oct"), LitS(IntV(493), "oct"), LitS(IntV(255), "hex"),       \* 010, 0755, 0xff: where the base matters
@@ -78,7 +78,12 @@ MkP(pf, t) == LET a == t[1] b == t[2] c == t[3] IN
 \* land on short-circuit jumps, taken and not taken)
 LogicTrip == { <<a, b, c>> : a \in {I(0), I(1)}, b \in {I(0), I(2)}, c \in {I(0), I(7)} }
 LogicForms == { <<o1, o2, g>> : o1 \in {"and", "or"}, o2 \in {"and", "or"}, g \in {"L", "R"} } \cup { <<o, "unot", g>> : o \in {"and", "or"}, g \in {"OUT", "INL", "INR"} }
-L1x == /\ phase = 0 /\ Scope = "logic" /\ \E pf \in LogicForms, t \in LogicTrip : ea' = MkP(pf, t) /\ form' = pf[1]
+\* not over a parenthesised and / or whose last operand is a comparison (a NOT opcode ends the operand the jump must land behind)
+Cmps == {"==", "!=", "<", "<=", ">", ">="}
+NotCmp == { Un("not", Par(Bin(lo, t[1], Bin(cm, t[2], t[3])))) : lo \in {"and", "or"}, cm \in Cmps, t \in LogicTrip }
+            \cup { Bin(lo2, Un("not", Par(Bin(lo, t[1], Bin(cm, t[2], t[3])))), Id("x")) : lo \in {"and", "or"}, lo2 \in {"and", "or"}, cm \in {"!=", "<="}, t \in LogicTrip }
+L1x == /\ phase = 0 /\ Scope = "logic"
+       /\ \E e \in { <<MkP(pf, t), pf[1]>> : pf \in LogicForms, t \in LogicTrip } \cup { <<x, "unot">> : x \in NotCmp } : ea' = e[1] /\ form' = e[2]
        /\ eb' = NoX /\ style' = "print" /\ phase' = 3 /\ UNCHANGED ok
 P1 == phase = 0 /\ Scope = "prec" /\ \E o \in BinOps : form' = o /\ phase' = 1 /\ UNCHANGED <<ea, eb, style, ok>>
 P2 == /\ phase = 1 /\ Scope = "prec"
